@@ -305,6 +305,28 @@ pub fn adversarial_streams() -> Vec<Vec<Entry>> {
             value: vec![],
         },
     ]);
+    // many tiny entries: one data block with far more than 254 restart points (restart interval 1-2)
+    out.push(
+        (0..700u32)
+            .map(|i| Entry {
+                key: format!("{i:04}").into_bytes(),
+                seqno: u64::from(i % 3),
+                vt: if i % 50 == 7 { 1 } else { 0 },
+                value: if i % 50 == 7 { vec![] } else { vec![b'a' + (i % 26) as u8] },
+            })
+            .collect(),
+    );
+    // the same shape with two versions per key
+    out.push(
+        (0..600u32)
+            .map(|i| Entry {
+                key: format!("{:04}", i / 2).into_bytes(),
+                seqno: if i % 2 == 0 { 9 } else { 4 },
+                vt: 0,
+                value: vec![b'a' + (i % 26) as u8],
+            })
+            .collect(),
+    );
     // empty key and single-byte extremes
     out.push(vec![
         Entry {
@@ -691,7 +713,10 @@ pub fn run(tier: &str, threads: usize, max_wall_s: f64) -> Outcome {
     } else {
         streams.extend(deep_streams());
     }
-    streams.extend(adversarial_streams());
+    // the adversarial family first, so that a capped run never skips it
+    let mut all = adversarial_streams();
+    all.extend(streams);
+    let streams = all;
     let sets = settings();
     let n_streams = streams.len() as u64;
     let n_sets = sets.len() as u64;
